@@ -237,7 +237,8 @@ func (r *renderer) operand(e Expr, need bool) {
 func (r *renderer) quote(s string) string {
 	if r.style == AltLit {
 		// long bracket when possible, else decimal escapes everywhere possible
-		if !strings.Contains(s, "]") && !strings.ContainsAny(s, "\r") && isPrintable(s) && !strings.HasPrefix(s, "\n") {
+		// (the empty long string [==[]==] is left to check C12: golua cannot load it)
+		if s != "" && !strings.Contains(s, "]") && !strings.ContainsAny(s, "\r") && isPrintable(s) && !strings.HasPrefix(s, "\n") {
 			return "[==[" + s + "]==]"
 		}
 		var sb strings.Builder
